@@ -219,7 +219,7 @@ func mutate(t *rapid.T, root map[string]any) (string, []string) {
 		w    int
 	}
 	ops := []op{{"delete-elem", 2}, {"disc-mapping", 2}, {"delete", 4}, {"null", 3}, {"swap", 4}, {"drop-schema", 3}, {"schema-to-content", 2}, {"drop-items", 2}, {"server-var", 2},
-		{"bad-ref", 3}, {"cyclic-ref", 2}, {"extension", 2}, {"json-pointer-ref", 1}, {"path-param-mismatch", 1}, {"null-component", 1}, {"empty-security-requirement", 1}, {"forward-array-component", 1}, {"servers", 2}, {"security-scheme", 2}, {"required-undeclared", 2}, {"bad-type", 2}, {"empty-map", 2}, {"param-missing", 2}, {"status-pattern", 1}, {"dup-path-var", 1}}
+		{"bad-ref", 3}, {"cyclic-ref", 2}, {"extension", 2}, {"json-pointer-ref", 1}, {"path-param-mismatch", 1}, {"null-component", 1}, {"empty-security-requirement", 1}, {"forward-array-component", 1}, {"servers", 2}, {"security-scheme", 2}, {"required-undeclared", 2}, {"response-default-and-numbered", 2}, {"unused-component", 2}, {"bad-type", 2}, {"empty-map", 2}, {"param-missing", 2}, {"status-pattern", 1}, {"dup-path-var", 1}}
 	var names []string
 	for _, o := range ops {
 		for i := 0; i < o.w; i++ {
@@ -453,6 +453,59 @@ func mutate(t *rapid.T, root map[string]any) (string, []string) {
 			}
 			return "extension:" + k, s.path
 		}
+	case "response-default-and-numbered":
+		// one shared response documented under a status code by one operation and as
+		// `default` by another (goag supports only one of the two per response: it must say so)
+		comps, _ := root["components"].(map[string]any)
+		if comps == nil {
+			comps = map[string]any{}
+			root["components"] = comps
+		}
+		rs, _ := comps["responses"].(map[string]any)
+		if rs == nil {
+			rs = map[string]any{}
+			comps["responses"] = rs
+		}
+		rs["PlantedFailure"] = map[string]any{"description": "failure", "content": map[string]any{"application/json": map[string]any{"schema": map[string]any{"type": "object", "properties": map[string]any{"message": map[string]any{"type": "string"}}}}}}
+		paths, _ := root["paths"].(map[string]any)
+		if paths == nil {
+			paths = map[string]any{}
+			root["paths"] = paths
+		}
+		ref := map[string]any{"$ref": "#/components/responses/PlantedFailure"}
+		first, second := "404", "default"
+		if rapid.Bool().Draw(t, "default_first") {
+			first, second = "default", "404"
+		}
+		paths["/aa-planted"] = map[string]any{"get": map[string]any{"responses": map[string]any{first: ref}}}
+		paths["/zz-planted"] = map[string]any{"get": map[string]any{"responses": map[string]any{second: ref}}}
+		return "response-default-and-numbered:" + first + "-first", []string{"components", "responses", "PlantedFailure"}
+	case "unused-component":
+		// a shared catalogue holds entries nothing references yet
+		comps, _ := root["components"].(map[string]any)
+		if comps == nil {
+			comps = map[string]any{}
+			root["components"] = comps
+		}
+		section := rapid.SampledFrom([]string{"responses", "parameters", "headers", "requestBodies", "schemas"}).Draw(t, "unused_section")
+		m, _ := comps[section].(map[string]any)
+		if m == nil {
+			m = map[string]any{}
+			comps[section] = m
+		}
+		switch section {
+		case "responses":
+			m["UnusedPlanted"] = map[string]any{"description": "not wired up yet", "content": map[string]any{"application/json": map[string]any{"schema": map[string]any{"type": "object"}}}}
+		case "parameters":
+			m["UnusedPlanted"] = map[string]any{"name": "unused", "in": "query", "schema": map[string]any{"type": "string"}}
+		case "headers":
+			m["UnusedPlanted"] = map[string]any{"schema": map[string]any{"type": "integer"}}
+		case "requestBodies":
+			m["UnusedPlanted"] = map[string]any{"content": map[string]any{"application/json": map[string]any{"schema": map[string]any{"type": "object"}}}}
+		default:
+			m["UnusedPlanted"] = map[string]any{"type": "object", "properties": map[string]any{"a": map[string]any{"type": "string"}}}
+		}
+		return "unused-component:" + section, []string{"components", section, "UnusedPlanted"}
 	case "required-undeclared":
 		// `required` naming a property the schema does not declare itself: a ghost, or a
 		// property that only a member of its allOf (declared before or after it) brings in
